@@ -19,7 +19,7 @@ instance (s : State) (b k : Bytes) : Decidable (DeleteOk s b k) := by
   unfold DeleteOk; decide_pred
 instance (s : State) (sb sk db dk : Bytes) : Decidable (CopyOk s sb sk db dk) := by
   unfold CopyOk; decide_pred
-instance (s : State) (b : Bytes) (p d : Option Bytes) (m : Option Int) : Decidable (ListOk s b p d m) := by
+instance (b : Bytes) (p : Option Bytes) : Decidable (ListOk b p) := by
   unfold ListOk; decide_pred
 instance (s : State) (b k : Bytes) : Decidable (CreateUploadOk s b k) := by
   unfold CreateUploadOk; decide_pred
@@ -57,8 +57,8 @@ def Good (s : State) : Op → Prop
   | .deleteObject b k => DeleteOk s b k
   | .deleteObjects b ks => DeleteObjectsOk s b ks
   | .copyObject sb sk db dk => CopyOk s sb sk db dk
-  | .listObjectsV2 b p d _ m => ListOk s b p d m
-  | .listObjects b p d _ m => ListOk s b p d m
+  | .listObjectsV2 b p _ _ _ => ListOk b p
+  | .listObjects b p _ _ _ => ListOk b p
   | .createMultipartUpload _ b k _ => CreateUploadOk s b k
   | .uploadPart _ b k u n _ => UploadPartOk s b k u n
   | .uploadPartCopy _ b k u n sb sk r => UploadPartCopyOk s b k u n sb sk r
